@@ -21,6 +21,7 @@ cargo build --offline --no-default-features --features tokio-runtime,mmap,link_t
 t=$(cargo test --offline --workspace --no-fail-fast --lib 2>&1 | grep -E "^test result" | head -1)
 mkdir -p tests; cp $src/demo.rs tests/demo.rs
 feat=""; grep -q "link_to" tests/demo.rs && feat="--features link_to"
+[ -n "$DEMO_FEATURES" ] && feat="$DEMO_FEATURES"   # e.g. "--no-default-features --features tokio-runtime" for a change only one flavour compiles
 with=$(cargo test --offline $feat --test demo 2>&1 | grep -E "^test result" | head -1)
 git -c core.hooksPath=/dev/null reset -q --hard HEAD
 mkdir -p tests; cp $src/demo.rs tests/demo.rs
